@@ -9,7 +9,8 @@
           SI                          StartHunt with nil MAC / non-IPv4 address
           T,<mac>                     StopHunt
           C                           Close
-          W,<i>,<hint mac>            loop i runs one iteration (hint: the MAC the by-IP lookup met first)
+          W,<i>,<mac>                 loop i runs one iteration (the MAC is the Ethernet destination the harness
+                                      saw, kept for the reader; the model ignores it)
           R,<op>,<ethsrc>,<smac>,<sip>,<tmac>,<tip>    ProcessPacket on a valid ARP frame (op decimal)
           O,<mac>,<ip|->              the session's DHCP offer for mac is set / cleared
 
@@ -67,7 +68,7 @@ Definition parse_event (t : string) : option event :=
       if String.eqb k "S" then
         match hexN 6 a, hexN 4 b with Some m, Some i => Some (StartHunt (mkAddr m i)) | _, _ => None end
       else if String.eqb k "W" then
-        match nat_of_dec a, hexN 6 b with Some i, Some h => Some (Wake i h) | _, _ => None end
+        match nat_of_dec a, hexN 6 b with Some i, Some _ => Some (Wake i) | _, _ => None end
       else if String.eqb k "O" then
         match hexN 6 a with
         | Some m => if String.eqb b "-" then Some (SetOffer m None)
@@ -120,7 +121,6 @@ Definition show_viol (v : viol) : string :=
 (* ---- known classes ---- *)
 
 Definition KEY_PROBE_ROUTER : string := "probe-reject-for-router-ip-to-unhunted-mac".
-Definition KEY_SHARED_IP : string := "stopped-mac-shares-ip-with-hunted-mac-no-restore".
 Definition KEY_AFTER_CLOSE : string := "forged-reply-on-receive-path-after-close".
 
 (* the recorded class a violated clause at this position falls in, if any *)
@@ -128,10 +128,6 @@ Definition explain (c : cfg) (s : state) (e : event) (v : viol) : option string 
   match v with
   | VConfined => if known_C13_probe_router c s e then Some KEY_PROBE_ROUTER else None
   | VCloseStops => if known_C13_reply_after_close c s e then Some KEY_AFTER_CLOSE else None
-  | VStopUndone => match e with
-                   | Wake i _ => if known_C13_shared_ip s i then Some KEY_SHARED_IP else None
-                   | _ => None
-                   end
   | _ => None
   end.
 
